@@ -59,6 +59,14 @@ def search_full(chk, cells):
         chk.search_case("full_run_outcome", ok, what=f"{cell[0]}_{cell[1]} {cell[2]} {cell[3]} {cell[4]} NfFF={cell[5]} PTO={cell[6]} TMC={cell[7]}: {out}", data=dict(cell=cell, outcome=out), sample=dict(cell=cell, outcome=out) if cell[6] == 1 and cell[7] == 1 else None)
 
 
+def search_full_multi(chk, cells):
+    """the same on lists of points with repeated entries (results are stored by position)"""
+    res = lattice.run_parallel(lattice.full_multi, cells)
+    for cell, out in zip(cells, res):
+        ok = out == "ok" or out.startswith("rejected")
+        chk.search_case("full_run_repeated_points", ok, what=f"{cell[0]}_{cell[1]} {cell[2]} {cell[3]} {cell[4]} NfFF={cell[5]} PTO={cell[6]} TMC={cell[7]} with a point listed twice: {out}", data=dict(cell=cell, outcome=out), sample=dict(cell=cell, outcome=out) if cell[6] == 1 else None)
+
+
 def search_kinematics(chk, r):
     """points outside 0 < x <= 1, Q2 > 0, or below the grid must be rejected on every path"""
     import yadism
@@ -108,6 +116,16 @@ def run(tier):
     # the same for observables assembled from several structure functions (the sanitiser must reach them too)
     n3xs = [("XSHERANC", "charm", "NC", "electron", "FFNS", 3, 3, 0), ("F1", "charm", "NC", "electron", "FFNS", 3, 3, 0), ("XSHERANCAVG", "total", "NC", "positron", "FFNS", 3, 3, 0)]
     search_full(chk, n3xs if thorough else n3xs[:1])
+    # evolution order above the order of the coefficient functions (PTODIS < PTO), deterministic cells
+    above = [("F2", "total", "NC", "electron", "ZM-VFNS%+", 4, 0, 0), ("F3", "total", "CC", "neutrino", "FONLL-FFN0%+", 4, 0, 0), ("XSHERANC", "total", "NC", "electron", "ZM-VFNS%+", 4, 0, 2),
+             ("F2", "charm", "NC", "electron", "FFNS%+", 3, 1, 0), ("FL", "total", "EM", "electron", "FFN0%+", 3, 1, 0), ("F2", "light", "NC", "positron", "ZM-VFNS%+", 4, 1, 0)]
+    search_full(chk, above if thorough else above[:4])
+    # several points, one of them listed twice
+    multi = [("F2", "total", "NC", "electron", "ZM-VFNS", 4, 0, 0), ("FL", "charm", "EM", "electron", "FFNS", 3, 1, 0), ("F3", "total", "CC", "neutrino", "ZM-VFNS", 4, 1, 0),
+             ("F2", "total", "NC", "electron", "ZM-VFNS", 4, 0, 1), ("XSHERANC", "total", "NC", "electron", "ZM-VFNS", 4, 0, 0), ("g1", "total", "NC", "electron", "ZM-VFNS", 4, 1, 0),
+             ("F2", "light", "CC", "antineutrino", "FONLL-FFN0", 4, 1, 0), ("XSCHORUSCC", "total", "CC", "neutrino", "FFNS", 3, 0, 2)]
+    cheap_multi = [c for c in cheap if c[6] <= 1]
+    search_full_multi(chk, multi + r.sample(cheap_multi, min(len(cheap_multi), 60 if thorough else 8)))
     search_kinematics(chk, r)
     chk.assumptions += [
         "no_internal_error is proved for every environment of the Combiner model (any nf, mass flags, weights, Q2) against class/module tables read from the live code each run; the model<->code tie is the dispatch_outcome correspondence (outcome class of the real code, without quadrature, on a sample / the whole lattice)",
